@@ -34,14 +34,16 @@ PROPS = {
                     "is discharged by Z3 for all values (tuples: for every lawful component type). int comparisons are the VM arms "
                     "LessThanInt..EqualInt(Imm), proved by Verus to store exactly a<b, a<=b, a>b, a>=b, a==b over mathematical integers, "
                     "from which the order laws are immediate; `!=` is shown syntactically to be Equal followed by Not."),
-        level_note=("Narrower than the statement: arrays (Equal/Hash) and Hash for string contain loops in Abra source and are not claimed; "
+        level_note=("Equal and Hash for array<T> (loops in Abra source) are decided by BOUNDED symbolic execution of the real text: every pair of lengths 0..4 "
+                    "(6 thorough; transitivity 0..3), symbolic elements of a lawful component type (reflexive, symmetric, transitive, `!=` is the negation, "
+                    "equal <=> same length and equal elements, equal => equal hashes): bounded, not proved. Hash for string is not claimed; "
                     "float comparison arms (one total order over all bit patterns, immediate forms included: Kani) and string comparison arms (lex order "
                     "proved a total order: Verus) are the obligations of u2_float / u3_str tagged C24; bool == / not are u4a_ctrl's. Trusted: U16's own parser/evaluator (refuses anything "
                     "outside its subset; mutant self-test, cvc5 cross-check and differential test against the real CLI in the thorough tier), "
                     "Z3, Verus, impl selection/monomorphisation by the type checker. Syntactic obligations (C24.prelude.{int,float,string}.*_delegates, "
                     "C24.codegen.*) prove code shape, not values."),
         technique="own VC generator for the loop-free Abra subset -> Z3, plus Verus proofs of the VM comparison arms",
-        scope="bool, void, tuples up to 4 (for lawful components), int; arrays excepted",
+        scope="bool, void, tuples up to 4 (for lawful components), int, float, string; arrays bounded",
         assumptions=[],
     ),
     "C01": dict(
@@ -88,10 +90,13 @@ PROPS = {
                     "every array length 0..3; out-of-range indexing and popping an empty array stop with the array-out-of-bounds runtime error."),
         level_note=("Kani obligations bounded by array length <= 3 (ConstructArray/DeconstructArray only there). The loop-free prelude members len/is_empty/push/pop/swap/remove/bounds are cut from "
                     "modules/prelude.abra and checked against a list model by the unit's own VC generator (Z3 sequences; remove.permutation bounded to "
-                    "lists <= 6, the rest for all lengths), with the VM-arm contracts as the meaning of the primitives. clear/find/contains/filled/clone/"
-                    "iteration/sort contain loops in Abra source and are not decided. string_nth_byte bounds is a Verus proof in u3_str."),
-        technique="Verus on lifted real array arms (all lengths) + Kani harnesses on the real vm.rs (one per concrete array length) + own VC generator -> Z3 for loop-free prelude array members + Verus for StringNthByte",
-        scope="array arms of the VM",
+                    "lists <= 6, the rest for all lengths), with the VM-arm contracts as the meaning of the primitives. The members with loops (clear, find, contains, filled, "
+                    "Clone for array, iteration = Iterable/ArrayIterator.next) are decided by BOUNDED symbolic execution of the real prelude text "
+                    "(`for` desugared as translate_stmt does, `for i in n` from the cut Iterable-for-int text): symbolic elements, every list length "
+                    "0..4 (6 thorough), unwinding assertions, object identities for the independence of clone/filled results: bounded, not proved. "
+                    "sort/sort_by/sort_by_key are not decided (C25). string_nth_byte bounds is a Verus proof in u3_str."),
+        technique="Verus on lifted real array arms (all lengths) + Kani harnesses on the real vm.rs (one per concrete array length) + own VC generator -> Z3 for loop-free prelude array members (all lengths) and bounded unrolling for the looping ones + Verus for StringNthByte",
+        scope="array arms of the VM; array members of prelude.abra except sorting",
         assumptions=[],
     ),
     "C31": dict(
